@@ -387,7 +387,13 @@ func (rm *RequestManager) validateRequest(requestID graphsync.RequestID, p peer.
 	if err != nil {
 		return gsmsg.GraphSyncRequest{}, hooks.RequestResult{}, nil, err
 	}
-	_, err = ipld.Encode(selectorSpec, dagcbor.Encode)
+	encodedSelector, err := ipld.Encode(selectorSpec, dagcbor.Encode)
+	if err != nil {
+		return gsmsg.GraphSyncRequest{}, hooks.RequestResult{}, nil, err
+	}
+	// traverse locally with the selector exactly as the responder will decode it:
+	// dag-cbor orders map keys, and the order of explored fields must be the same on both sides
+	selectorSpec, err = ipld.Decode(encodedSelector, dagcbor.Decode)
 	if err != nil {
 		return gsmsg.GraphSyncRequest{}, hooks.RequestResult{}, nil, err
 	}
